@@ -365,7 +365,9 @@ func c18NilArgs(r *harness.Run) {
 		for _, l := range lists {
 			a, b := run(l, f.omitted), run(l, f.withNil)
 			sig := "nilarg/" + f.name
-			r.Eval(sig+"/"+l, true, func() interface{} { return map[string]interface{}{"case": "explicit nil argument", "form": f.name, "list": l} })
+			r.Eval(sig+"/"+l, true, func() interface{} {
+				return map[string]interface{}{"case": "explicit nil argument", "form": f.name, "list": l}
+			})
 			if strings.HasPrefix(a, "error: ") && strings.HasPrefix(b, "error: ") {
 				continue // both raise (e.g. remove on an empty list is fine, concat of a missing range): same class
 			}
